@@ -1082,7 +1082,57 @@ def nontrivial(case):
     return any(o[0] in MUTATING for o in case["ops"])
 
 
+# what coq/Model/C02_RespBody.v mirrors by hand (each Gallina definition's comment names its Python counterpart)
+MODELLED = [
+    # constructor, copy, status
+    "webob.response:Response.__init__", "webob.response:Response.copy",
+    "webob.response:Response._status__get", "webob.response:Response._status__set",
+    "webob.response:Response._status_code__set",
+    # body / json / text
+    "webob.response:Response._body__get", "webob.response:Response._body__set",
+    "webob.response:Response._json_body__set", "webob.response:Response._json_body__del",
+    "webob.response:Response._text__get", "webob.response:Response._text__set", "webob.response:Response._text__del",
+    # write, the file-like view, body_file assignment
+    "webob.response:Response.write", "webob.response:Response._body_file__get", "webob.response:Response._body_file__set",
+    "webob.response:ResponseBodyFile.__init__", "webob.response:ResponseBodyFile.writelines", "webob.response:iter_file",
+    # app_iter
+    "webob.response:Response._app_iter__get", "webob.response:Response._app_iter__set",
+    "webob.response:Response._app_iter__del", "webob.response:iter_close",
+    # typed header attributes the body machinery goes through
+    "webob.response:Response.content_length", "webob.response:Response.content_encoding",
+    "webob.response:Response.content_md5", "webob.response:Response._etag_raw", "webob.response:Response.etag",
+    "webob.response:Response.location",
+    "webob.descriptors:header_getter", "webob.descriptors:converter", "webob.descriptors:parse_int",
+    "webob.descriptors:parse_int_safe", "webob.descriptors:serialize_int", "webob.descriptors:serialize_etag_response",
+    "webob.descriptors:_rx_etag",
+    # charset / content_type
+    "webob.descriptors:CHARSET_RE", "webob.response:Response._charset__get", "webob.response:Response._charset__set",
+    "webob.response:Response._charset__del", "webob.response:Response._content_type__set",
+    "webob.response:Response._content_type__del", "webob.response:_is_xml", "webob.response:_content_type_has_charset",
+    # encode / decode / md5
+    "webob.response:Response.encode_content", "webob.response:Response.decode_content", "webob.response:Response.md5_etag",
+    # WSGI call
+    "webob.descriptors:SCHEME_RE", "webob.response:Response._make_location_absolute",
+    "webob.response:Response._abs_headerlist", "webob.response:Response.__call__",
+    "webob.response:Response.conditional_response_app", "webob.response:EmptyResponse",
+    # Response.headers view as used by charset / content_type
+    "webob.response:Response._headers__get", "webob.headers:ResponseHeaders.__getitem__",
+    "webob.headers:ResponseHeaders.__setitem__", "webob.headers:ResponseHeaders.pop",
+]
+# translated into coq/Gen/C02_status.v by gen(ctx)
+REGENERATED = ["webob.util:status_reasons", "webob.util:status_generic_reasons"]
+# parameters of the model (gzip stream, request URI for urljoin) and glue only the oracle drives
+ORACLE_ONLY = [
+    "webob.response:gzip_app_iter", "webob.response:_gzip_header", "webob.response:_request_uri",
+    "webob.response:Response._json_body__get", "webob.response:Response._has_body__get",
+    "webob.request:BaseRequest.call_application",
+]
+
+
 def run(ctx):
+    ctx.modelled(MODELLED)
+    ctx.extra["regenerated_from_source"] = REGENERATED
+    ctx.extra["oracle_only"] = ORACLE_ONLY
     problems = gen(ctx)
     for p in problems:
         ctx.broken.append("regeneration of Gen/C02_status.v: " + p)
